@@ -1,4 +1,5 @@
 HOOK_COMMITS = ["d8a0f57"]
+FIX_COMMITS = ["10a3687"]
 NOTES = ("Every check: (1) regenerates the extracted data, rebuilds the Lean theorems of the property and audits their axioms; "
          "(2) rebuilds the harness against /repo's working tree with hooks on; (3) runs the real code and the model's executable "
          "definitions on the same generated schedules/inputs and compares them, and evaluates the property's own predicates on what "
@@ -7,6 +8,22 @@ CTL_NOTE = ("Trusted: Lean kernel (axioms propext, Classical.choice, Quot.sound 
             "by the K-ctl correspondence (real async_launch::launch driven by scripted completion orders, outcomes, bursts, Terminate positions, "
             "abort-honouring/ignoring evaluations); tokio/futures scheduling itself is not modelled - an event is 'the select! loop takes this result'.")
 TEXT = {
+    "C04": {
+        "text": "Theorems C04_*: in the controller model, for every event list: taking the abort request only latches the flag and broadcasts; once latched nothing is ever started and "
+                "the broadcast is not repeated; after the return nothing happens; the step that reaches the target returns in that step with a best <= target and drops what is in flight; "
+                "the run is over exactly when nothing is in flight; what is returned is the outcome of the final core state (results arriving while draining included). The model is compared with the real "
+                "controller under Terminate at every position, evaluations that honour or ignore the abort, and a watchdog that turns a non-returning controller into a reported hang. "
+                "Partial: the Terminate/time-limit/SIGINT plumbing of async_launch/sync_launch and wall-clock 'as soon as' are exercised, not proved.",
+        "design_ref": "7 (C04), 3.4, 9 (D12, KF1)", "note": CTL_NOTE,
+        "technique": "Lean 4 step lemmas and invariants over all event sequences of the controller state machine + differential correspondence with hang watchdog",
+    },
+    "C06": {
+        "text": "Theorem C06_first: for every prefix schedule, a failure taken while no abort is latched is recorded for good, broadcasts the abort in that step, no evaluation is started in that step or after, "
+                "and every return of every continuation is exactly Err(that failure); C06_after_abort_keeps_error covers the 'before any termination request' clause. Compared with the real controller with failures and "
+                "non-finite values at random positions, second failures, later results below the target. Partial: the mapping of child exit status/unparsable output to errors (process.rs) is covered by C16's process-level checks.",
+        "design_ref": "7 (C06)", "note": CTL_NOTE,
+        "technique": "Lean 4 proof over all continuations of the controller state machine + differential correspondence",
+    },
     "C03": {
         "text": "Theorems C03_le / C03_zero / C03_starts_eq_pushed: in the controller model, for every event list (all completion orders, outcomes, abort points), "
                 "any concurrency, sample size and random decisions, the number of evaluations started never exceeds the budget. Proof by invariant over the event list; "
